@@ -13,6 +13,12 @@ MUTANTS = [
     ("C04", "api/tracepoint/tracepoint_config.py", "self._fire_count += 1", "self._fire_count += 2"),
     ("C03", "api/tracepoint/trigger.py", 'if event == "line" and file == self.path and line == self.line:', 'if file == self.path and line == self.line:'),
     ("C03", "api/tracepoint/trigger.py", 'if event == "call" and function_name == self.__function_name:', 'if function_name == self.__function_name:'),
+    ("C03", "processor/trigger_handler.py", "if ctx.can_trigger() and ctx.acquire():", "if ctx.acquire() and ctx.can_trigger():"),
+    ("C03", "processor/trigger_handler.py", "        if len(self._tp_config) == 0:\n            return None\n", ""),
+    ("C03", "processor/trigger_handler.py", "                for action in actions:\n", "                for action in actions[:1]:\n"),
+    ("C03", "processor/trigger_handler.py", 'if event in ["line", "return", "exception"] and self._callbacks.is_set:', 'if event in ["line", "return"] and self._callbacks.is_set:'),
+    ("C03", "processor/trigger_handler.py", "filename = os.path.basename(frame.f_code.co_filename)", "filename = frame.f_code.co_filename"),
+    ("C03", "processor/trigger_handler.py", "        if len(actions) == 0:\n            return self.trace_call\n", "        if len(actions) == 0:\n            return None\n"),
     ("C05", "processor/variable_processor.py", "return string[:max_length], len(string) > max_length", "return string[:max_length], len(string) >= max_length"),
     ("C05", "processor/variable_set_processor.py", "if self.__var_cache.size > self.__config.max_variables:", "if self.__var_cache.size >= self.__config.max_variables:"),
     ("C05", "processor/bfs/__init__.py", "pop = queue.pop(0)", "pop = queue.pop()"),
